@@ -79,6 +79,64 @@ theorem reserialise (f : Frame) (h : f.wf = true) :
   · rw [decode_raw f h]; exact Ipsc.reserialise f h
   · rw [decode_kaitai f h]; exact Ipsc.reserialise f h
 
+/-! ## histories: results the caller keeps, re-stamps and serialises
+
+`Heap` lists the `HyteraIPSC` objects handed out so far, `HOp.run` is one call of a decoder entry point
+(`from_ipsc_bytes`, `from_kaitai`, `Burst.from_hytera_ipsc` on bytes / on the parser object — the burst
+keeps the decoded object as `hytera_ipsc`), one attribute assignment by the caller, or one
+`as_ipsc_bytes` (`Model/Ipsc.lean`).  The correspondence run keeps every object the real code returns,
+assigns every public attribute, decodes the same and other octets again and reads all kept objects back. -/
+
+/-- **decoding is a function of the octets, not of the history**: after *any* history (earlier decodes
+of the same or other frames by any entry point, any re-stamping of their results, any serialisation)
+each of the four entry points, given the octets of a well-formed frame, hands out a *new* object that
+is the one the frame describes (and serialises to the frame), and touches none of the objects handed
+out before -/
+theorem decode_any_history (f : Frame) (hf : f.wf = true) (h0 : Heap) (ops : List HOp)
+    (op : HOp) (hop : op ∈ decoders f.bytes) :
+    (op.run (runHistory h0 ops)).read (runHistory h0 ops).size = some f.obj ∧
+    asIpscBytes f.obj = .ok f.bytes ∧ burstOf f.obj = .ok f.view ∧
+    ∀ r, r < (runHistory h0 ops).size → (op.run (runHistory h0 ops)).read r = (runHistory h0 ops).read r := by
+  rw [decoder_push f hf _ op hop]
+  exact ⟨Heap.read_push_new _ _, Ipsc.reserialise f hf, burstOf_obj f hf,
+    fun r hr => Heap.read_push_old _ _ r hr⟩
+
+/-- **the same octets again after the first result was re-stamped**: frame `f` is decoded (entry point
+`op1`), the caller does anything — in particular assigns attributes of that first result — and the
+same octets are decoded again (entry point `op2`): the second result is another object than the first
+(`h.size < h2.size`, its handle) and reads as the frame encodes, not as the re-stamped first one -/
+theorem redecode_after_restamp (f : Frame) (hf : f.wf = true) (h : Heap) (ops : List HOp)
+    (op1 op2 : HOp) (h1 : op1 ∈ decoders f.bytes) (h2 : op2 ∈ decoders f.bytes) :
+    h.size < (runHistory (op1.run h) ops).size ∧
+    (op2.run (runHistory (op1.run h) ops)).read (runHistory (op1.run h) ops).size = some f.obj := by
+  refine ⟨?_, (decode_any_history f hf (op1.run h) ops op2 h2).1⟩
+  have := size_runHistory_le (op1.run h) ops
+  rw [decoder_push f hf h op1 h1, Heap.size_push] at this
+  rw [decoder_push f hf h op1 h1]
+  omega
+
+/-- **a held result keeps its value**: the object handed out for a well-formed frame still reads as
+the frame encodes, and serialises to the original 72 octets, after any further history that does not
+assign to *this* object (other decodes, assignments to other results, serialisations) -/
+theorem held_decoded (f : Frame) (hf : f.wf = true) (h : Heap) (op : HOp) (hop : op ∈ decoders f.bytes)
+    (ops : List HOp) (hops : ∀ o ∈ ops, o.target ≠ some h.size) :
+    (runHistory (op.run h) ops).read h.size = some f.obj ∧ asIpscBytes f.obj = .ok f.bytes := by
+  refine ⟨?_, Ipsc.reserialise f hf⟩
+  rw [read_runHistory _ ops h.size (by rw [decoder_push f hf h op hop, Heap.size_push]; omega) hops,
+    decoder_push f hf h op hop]
+  exact Heap.read_push_new _ _
+
+/-- **re-stamp, then serialise**: assigning timeslot, sequence number, colour code and both ids of a
+decoded frame gives exactly the object of the frame with those fields replaced, so (when the new
+values are in range) it serialises to that frame's 72 octets: all other octets — reserved blocks,
+payload, pad, type words — are the original ones -/
+theorem restamp_reserialise (f : Frame) (ts seq cc src dst : Nat)
+    (hg : ({ f with ts := ts, seq := seq, cc := cc, src := src, dst := dst } : Frame).wf = true) :
+    asIpscBytes (((((f.obj.set .timeslot (.nat ts)).set .seq (.nat seq)).set .cc (.nat cc)).set .src (.nat src)).set
+      .dst (.nat dst))
+      = .ok ({ f with ts := ts, seq := seq, cc := cc, src := src, dst := dst } : Frame).bytes :=
+  Ipsc.reserialise _ hg
+
 /-- `byteswap_bytes` is an involution and keeps the length — for every length (the property asks for
 even lengths; with an odd length the last octet stays in place) -/
 theorem byteswap_involution (bs : Bytes) :
@@ -135,5 +193,22 @@ example : (burstRaw exWakeup.bytes).map (fun v => (v.cls, v.timeslot, v.src, v.c
       = .ok (.wakeup, 2, 2308090, 5) ∧
     (fromIpscBytes exWakeup.bytes).map (fun x => x.pad) = .ok [0xef] ∧
     (fromIpscBytes exWakeup.bytes).bind asIpscBytes = .ok exWakeup.bytes := ⟨by rfl, by rfl, by rfl⟩
+
+/-- a history of the seeded kind: the wake-up frame is decoded from raw bytes, the result is moved to
+the other timeslot and given another sequence number, colour code and ids, then the same 72 octets
+arrive again: object 1 is the frame as encoded, object 0 the re-stamped one, and it serialises with
+exactly the five re-stamped fields changed -/
+def exHistory : Heap :=
+  runHistory Heap.empty
+    [.burstRaw exWakeup.bytes, .set 0 .timeslot (.nat 0), .set 0 .seq (.nat 64), .set 0 .cc (.nat 6),
+     .set 0 .src (.nat 2300001), .set 0 .dst (.nat 9990), .ser 0, .decRaw exWakeup.bytes]
+
+set_option maxRecDepth 8192 in
+example : exHistory.size = 2 ∧ exHistory.read 1 = some exWakeup.obj ∧
+    (exHistory.read 0).map (fun x => (x.timeslot, x.seq, x.cc, x.src, x.dst, x.reserved7a))
+      = some (0, 64, 6, 2300001, 9990, [0, 5, 1, 2, 0, 0, 0]) ∧
+    (exHistory.read 0).map asIpscBytes
+      = some (.ok ({ exWakeup with ts := 0, seq := 64, cc := 6, src := 2300001, dst := 9990 } : Frame).bytes) :=
+  ⟨by rfl, by rfl, by rfl, by rfl⟩
 
 end Dmr.C13
